@@ -344,11 +344,17 @@ pub fn gen_full_params(t: &mut Tape) -> dynafed::FullParams {
     let fp = elements::bitcoin::ScriptBuf::from_bytes(gen_script(t, false).into_bytes());
     let n = t.len(300, false);
     let fedpegscript = t.bytes(n);
-    let k = t.below(9);
+    // extension space: usually 0..8 entries, sometimes a count on either side of the 0xfd varint boundary
+    let k = if t.chance(8) { t.choose(&[0xfcusize, 0xfd, 0xfe, 300]) } else { t.below(9) };
     let ext = (0..k)
         .map(|_| {
-            let l = t.len(70, false);
-            t.bytes(l)
+            if k > 8 {
+                let l = t.below(3);
+                t.filler(l)
+            } else {
+                let l = t.len(70, false);
+                t.bytes(l)
+            }
         })
         .collect();
     dynafed::FullParams::new(signblockscript, limit, fp, fedpegscript, ext)
